@@ -246,6 +246,13 @@ MUTATIONS += [
     dict(id="C19-index-files-not-cacheable", prop="C19", file="crates/core/src/backend.rs", old="            Self::Config | Self::Key | Self::Pack => false,\n            Self::Snapshot | Self::Index => true,", new="            Self::Config | Self::Key | Self::Pack | Self::Index => false,\n            Self::Snapshot => true,"),
 ]
 
+# ---- C14 collect_and_prepare: extra entries
+MUTATIONS += [
+    dict(id="C14-extra-removed-in-dry-run", prop="C14", file=RS, old="            match (opts.delete, dry_run, is_dir) {", new="            match (opts.delete, dry_run && is_dir, is_dir) {"),
+    dict(id="C14-extra-dir-removed-without-delete", prop="C14", file=RS, old="                (true, false, true) => {\n                    if let Err(err) = dest.remove_dir(entry.path()) {", new="                (_, false, true) => {\n                    if let Err(err) = dest.remove_dir(entry.path()) {"),
+    dict(id="C14-extra-not-reported", prop="C14", file=RS, old="                (false, _, _) => {\n                    additional_existing = true;", new="                (false, _, _) => {\n                    additional_existing = is_dir;"),
+]
+
 HARMLESS = [
     dict(id="H-C05-trees-symlink-continue", prop="C05", file=CK, old="        for node in tree.nodes {\n            match node.node_type {", new="        for node in tree.nodes {\n            if node.node_type == NodeType::Symlink {\n                continue;\n            }\n            match node.node_type {"),
 ]
